@@ -111,6 +111,17 @@ for t in range(40 if tier == 'quick' else 200):
             break
     c.check(ok, {'sequence': t, 'last_op': str(op)})
 
+for t in range(30):
+    with a.case({'bounds_between_samples': t}):
+        s = rand_spectrum()
+        w, v = s.wave.copy(), s.value.copy()
+        i, j = sorted(rng.choice(np.arange(1, w.size - 1), size=2, replace=False))
+        lo, hi = w[i] - 0.37 * (w[i] - w[i - 1]), w[j] + 0.41 * (w[j + 1] - w[j])
+        want = np.trapz(v[i:j + 1], w[i:j + 1])          # exactly the samples inside [lo, hi]
+        got = s.integrate(lo, hi, method='trapz')
+        one = s.integrate(w[i] - 1e-9, w[i] + 1e-9, method='trapz')      # a single sample inside: nothing to integrate
+        a.check(bool(abs(got - want) <= 1e-12 * max(1.0, abs(want)) and one == 0), {'bounds_between_samples': t, 'got': float(got), 'expected': float(want)})
+
 d = Bounded('C15::crop_closed_range_at_sample_points', 'all pairs of sample wavelengths (i <= j) of 3 random spectra as crop limits, plus limits just inside / outside a sample',
             'crop keeps exactly the samples inside the closed requested range: a sample equal to either limit is kept')
 for t in range(3):
